@@ -5,6 +5,7 @@ import (
 	"go/token"
 	"go/types"
 	"strings"
+	"unicode"
 
 	"godcheck/core"
 
@@ -30,49 +31,21 @@ var indexFamily = map[string]bool{
 
 type idxOrigin struct {
 	call *ssa.Call
+	base ssa.Value // the string the position refers to: the haystack, or Y when the haystack is a window Y[L:] and L is added back
 	off  int64
 }
 
-// indexOrigins decomposes v into (result of a strings.Index* call) + constant.
+// indexOrigins decomposes v into (result of a strings.Index* call) + constant,
+// per φ input; see c20OriginsOf (c20_r9.go) for windows of the haystack.
 func indexOrigins(v ssa.Value, depth int) []idxOrigin {
-	if depth > 8 || v == nil {
+	if v == nil {
 		return nil
 	}
-	switch x := core.Forward(v).(type) {
-	case *ssa.Call:
-		if indexFamily[core.CalleeName(x)] {
-			return []idxOrigin{{x, 0}}
-		}
-	case *ssa.BinOp:
-		if x.Op == token.ADD || x.Op == token.SUB {
-			if c, ok := core.ConstInt(x.Y); ok {
-				if x.Op == token.SUB {
-					c = -c
-				}
-				var out []idxOrigin
-				for _, o := range indexOrigins(x.X, depth+1) {
-					out = append(out, idxOrigin{o.call, o.off + c})
-				}
-				return out
-			}
-			if c, ok := core.ConstInt(x.X); ok && x.Op == token.ADD {
-				var out []idxOrigin
-				for _, o := range indexOrigins(x.Y, depth+1) {
-					out = append(out, idxOrigin{o.call, o.off + c})
-				}
-				return out
-			}
-		}
-	case *ssa.Phi:
-		var out []idxOrigin
-		for _, e := range x.Edges {
-			out = append(out, indexOrigins(e, depth+1)...)
-		}
-		return out
-	case *ssa.Convert:
-		return indexOrigins(x.X, depth+1)
+	var out []idxOrigin
+	for _, lf := range c20LinOf(v, map[*ssa.Phi]bool{}, depth) {
+		out = append(out, c20OriginsOf(lf)...)
 	}
-	return nil
+	return out
 }
 
 // lengthPreserving: every return of g is string(b) where b = []byte(param) and b
@@ -358,8 +331,8 @@ func flattenConcat(v ssa.Value) []ssa.Value {
 
 func c20(r *core.Run) {
 	p := r.P
-	r.Explanation = "The three leaf packages of the generator (tools/god/util/format, util/stringx, config) are parsed and type-checked in-process and decided on their SSA: FileNamingFormat, ToCamel and ToSnake reach no clock, randomness, environment, OS, goroutine, map iteration or mutable package-level variable; every index obtained from strings.Index*(Y, ...) subscripts only Y (or X when Y = g(X) with g byte-length preserving by construction) and is offset only by the width of the searched flag; the template is sliced only after both flags were found in order, otherwise a non-nil error is returned; the template is decomposed into prefix / GO style / separator / DESIGNER style / suffix from the right slices; getStyle maps exactly lower/upper/title spellings (of the lower-cased flag) to three distinct styles and errors otherwise, transferTo applies the same case function per style; doFormat renders the first word in the GO style, the others in the DESIGNER style, joined by the separator between prefix and suffix."
-	r.NotDecided = "the rendering rule over all strings (behaviour of strings.Title/ToUpper on arbitrary Unicode, the word splitter's output), camel<->snake round trip, panic-freedom of the conversions in general (e.g. UnTitle's byte-wise first letter)."
+	r.Explanation = "The three leaf packages of the generator (tools/god/util/format, util/stringx, config) are parsed and type-checked in-process and decided on their SSA: FileNamingFormat, ToCamel and ToSnake reach no clock, randomness, environment, OS, goroutine, map iteration or mutable package-level variable; every index obtained from strings.Index*(Y, ...) subscripts only Y (or X when Y = g(X) with g byte-length preserving by construction) and is offset only by the width of the searched flag; the template is sliced only after both flags were found in order, otherwise a non-nil error is returned; the template is decomposed into prefix / GO style / separator / DESIGNER style / suffix from the right slices; getStyle maps exactly lower/upper/title spellings (of the lower-cased flag) to three distinct styles and errors otherwise, transferTo applies the same case function per style; doFormat renders the first word in the GO style, the others in the DESIGNER style, joined by the separator between prefix and suffix; the DESIGNER position comes from a search restricted to the part of the template behind the GO match (a position found in a window Y[L:] counts as a position in Y only with L added back); the splitter of util/format opens a word at '_' and before every rune for which unicode.IsUpper holds, evaluated on ASCII and non-ASCII sample runes, and ToSnake's splitter agrees with it on those samples."
+	r.NotDecided = "the rendering rule over all strings (behaviour of strings.Title/ToUpper on arbitrary Unicode – strings.Title also capitalises after punctuation inside a word, observed in h7 f3 –, the word splitter on runes outside the samples, e.g. title-case letters), which of several DESIGNERs behind GO is taken, camel<->snake round trip, panic-freedom of the conversions in general (e.g. UnTitle's byte-wise first letter)."
 	r.Trusted = append(r.Trusted, "in-process loader core/ext_c20.go: go/parser + go/types + ssautil.BuildPackage; imports served from export data via one read-only packages.Load in the main module")
 
 	ext, err := p.LoadExt(godMod, strxRel, godCfgRel, fmtRel)
@@ -612,7 +585,7 @@ func c20(r *core.Run) {
 			}
 		}
 	}
-	r.Check("D2/K8/index-provenance", "an index obtained from strings.Index*(Y, ...) (plus constants) subscripts only Y itself, or X when Y = g(X) for an in-module g that is byte-length preserving by construction (returns string(b), b = []byte(param) written element-wise only)", func(o *core.O) {
+	r.Check("D2/K8/index-provenance", "an index obtained from strings.Index*(Y, ...) (plus constants) subscripts only Y itself, or X when Y = g(X) for an in-module g that is byte-length preserving by construction (returns string(b), b = []byte(param) written element-wise only); a position found in the window Y[L:] is a position in Y only with L added back (Index(Y[L:], n) + L + constant)", func(o *core.O) {
 		if !o.Need(len(uses) > 0, "a slice/index expression using a strings.Index* result (FileNamingFormat)") {
 			return
 		}
@@ -625,7 +598,7 @@ func c20(r *core.Run) {
 					continue
 				}
 				seen[og.call] = true
-				y := og.call.Call.Args[0]
+				y := og.base
 				if sameVal(u.x, y) {
 					continue
 				}
@@ -662,18 +635,21 @@ func c20(r *core.Run) {
 	// ------------------------------------------------------------------ D3
 	// roles in FileNamingFormat
 	var idxGo, idxDes *ssa.Call
-	if fnFormat != nil {
-		for _, c := range core.Calls(fnFormat, func(in ssa.Instruction) bool {
-			c, ok := in.(*ssa.Call)
-			return ok && indexFamily[core.CalleeName(c)] && len(c.Call.Args) >= 2
-		}) {
-			needle, _ := core.ConstString(c.Common().Args[1])
-			switch strings.ToLower(needle) {
-			case "go":
-				idxGo = c.(*ssa.Call)
-			case "designer":
-				idxDes = c.(*ssa.Call)
-			}
+	if fs := c20FlagSearches(fnFormat); len(fs) > 0 {
+		if cs := fs["go"]; len(cs) > 0 {
+			idxGo = cs[len(cs)-1]
+		}
+		if cs := fs["designer"]; len(cs) > 0 {
+			idxDes = cs[len(cs)-1]
+		}
+	}
+	// DESIGNER searched in the window Y[iGO+k:], 0 <= k: whatever it finds lies behind the GO
+	// match once the window's start is added back (D2/K8/index-provenance demands that);
+	// the order needs no comparison then
+	desBehindGo := false
+	if idxGo != nil && idxDes != nil {
+		if k, ok := c20BehindOf(idxDes, idxGo); ok && k >= 0 {
+			desBehindGo = true
 		}
 	}
 	isIdx := func(c *ssa.Call) func(ssa.Value) bool {
@@ -681,7 +657,7 @@ func c20(r *core.Run) {
 	}
 	var extFuncsErr = func(v ssa.Value) bool { return errNonNil(all, v) }
 
-	r.Check("D3/K2/both-flags-found-in-order", "FileNamingFormat slices the template and renders only when index(GO) >= 0, index(DESIGNER) >= 0 and index(GO) < index(DESIGNER); every return reachable when one of these fails carries a non-nil error", func(o *core.O) {
+	r.Check("D3/K2/both-flags-found-in-order", "FileNamingFormat slices the template and renders only when index(GO) >= 0, index(DESIGNER) >= 0 and index(GO) < index(DESIGNER) – the last one by a comparison, or by construction when DESIGNER is searched only in the part of the template behind the GO match; every return reachable when one of these fails carries a non-nil error", func(o *core.O) {
 		if !o.Need(fnFormat != nil, "format.FileNamingFormat") || !o.Need(idxGo != nil && idxDes != nil, "strings.Index calls for the flags GO and DESIGNER in FileNamingFormat") {
 			return
 		}
@@ -706,16 +682,28 @@ func c20(r *core.Run) {
 		}
 		o.Site(len(targets), core.FuncName(fnFormat))
 		zero := core.IsConstInt(0)
-		atoms := []struct {
+		// "found": idx >= 0 in any spelling (idx > -1, !(idx < 0), …) or idx != -1 (strings.Index* returns -1 or a position)
+		found := func(c *ssa.Call) core.Atom {
+			return core.AnyOf(core.Cmp(token.GEQ, isIdx(c), zero), gxAtLeast(isIdx(c), 0), core.Cmp(token.NEQ, isIdx(c), core.IsConstInt(-1)))
+		}
+		type flagAtom struct {
 			what string
 			a    core.Atom
-		}{
-			{"index(GO) >= 0", core.Cmp(token.GEQ, isIdx(idxGo), zero)},
-			{"index(DESIGNER) >= 0", core.Cmp(token.GEQ, isIdx(idxDes), zero)},
-			{"index(GO) < index(DESIGNER)", core.AnyOf(core.Cmp(token.LEQ, isIdx(idxGo), isIdx(idxDes)), core.Cmp(token.LSS, isIdx(idxGo), isIdx(idxDes)))},
+			of   *ssa.Call // the search the atom is about
+		}
+		atoms := []flagAtom{
+			{"index(GO) >= 0", found(idxGo), idxGo},
+			{"index(DESIGNER) >= 0", found(idxDes), idxDes},
+		}
+		if !desBehindGo {
+			atoms = append(atoms, flagAtom{"index(GO) < index(DESIGNER)", core.AnyOf(core.Cmp(token.LEQ, isIdx(idxGo), isIdx(idxDes)), core.Cmp(token.LSS, isIdx(idxGo), isIdx(idxDes))), idxDes})
 		}
 		for _, at := range atoms {
 			for _, tg := range targets {
+				// what the search itself is computed from (the window behind GO it looks into) comes first by necessity
+				if tv, isVal := tg.(ssa.Value); isVal && core.DependsOn(at.of.Call.Args[0], func(v ssa.Value) bool { return v == tv }) {
+					continue
+				}
 				if w := requiresX(fnFormat, core.Is(tg), at.a); w != nil {
 					o.Fail(posOf(tg), "FileNamingFormat: reachable without %s having been established (template lacking a flag or with the flags in the wrong order is not rejected)", at.what)
 					break
@@ -1162,8 +1150,14 @@ func c20(r *core.Run) {
 			o.Unres("the flags searched by FileNamingFormat are not constants")
 			return
 		}
-		iGo, iDes := strings.Index(fold(def), fold(nGo)), strings.Index(fold(def), fold(nDes))
-		if iGo < 0 || iDes < 0 || iGo > iDes {
+		// reference: GO, and DESIGNER behind it
+		iGo, iDes := strings.Index(fold(def), fold(nGo)), -1
+		if iGo >= 0 {
+			if j := strings.Index(fold(def)[iGo+len(nGo):], fold(nDes)); j >= 0 {
+				iDes = iGo + len(nGo) + j
+			}
+		}
+		if iGo < 0 || iDes < 0 {
 			o.Fail(p.Pos(c.Pos()), "DefaultFormat %q does not contain %q followed by %q: every generator run without an explicit style fails", def, nGo, nDes)
 			return
 		}
@@ -1216,97 +1210,44 @@ func c20(r *core.Run) {
 		}
 	})
 
-	r.Check("D3/K6/word-boundaries", "the splitter starts a new word exactly at '_' (dropped) and before each of 'A'..'Z' (kept): evaluated concretely for the runes around both ends of the range", func(o *core.O) {
+	r.Check("D3/K6/word-boundaries", "the splitter of util/format starts a new word exactly at '_' (which is dropped) and before every rune for which unicode.IsUpper holds (which is kept), and keeps every other rune in the current word: evaluated concretely on ASCII and non-ASCII upper-case letters (A, Z, É, Ā, Σ, Ф), on lower-case and caseless letters, digits and punctuation (a, é, ß, 中, 1, ٣, @, [) [the property splits identifiers before upper-case letters and quantifies over unicode identifiers: userÉcole has the words user, École]", func(o *core.O) {
 		// role: the function of the format package that iterates over the runes of its
 		// string parameter (ReadRune on a strings.Reader, or `for range` over the
 		// string) and keeps/flushes a word buffer
 		n := 0
 		for _, f := range ext.Funcs(fmtRel) {
-			var rd ssa.Instruction
-			var isRune func(ssa.Value) bool
-			var noRune core.Atom // holds on the edges on which no rune was obtained
-			if reads := core.Calls(f, core.CallMethod("strings.Reader", "ReadRune")); len(reads) == 1 {
-				c := reads[0].(*ssa.Call)
-				rd = c
-				isRune = func(v ssa.Value) bool { return core.IsResult(v, 0, core.Is(c)) }
-				noRune = core.Not(core.ErrNil(2, core.Is(c)))
-			} else {
-				var nexts []*ssa.Next
-				for _, in := range core.Instrs(f, func(in ssa.Instruction) bool {
-					nx, ok := in.(*ssa.Next)
-					if !ok || !nx.IsString {
-						return false
-					}
-					rg, ok := nx.Iter.(*ssa.Range)
-					if !ok {
-						return false
-					}
-					_, isParam := core.Strip(rg.X).(*ssa.Parameter)
-					return isParam
-				}) {
-					nexts = append(nexts, in.(*ssa.Next))
-				}
-				if len(nexts) != 1 {
-					continue
-				}
-				nx := nexts[0]
-				rd = nx
-				isRune = func(v ssa.Value) bool {
-					e, ok := v.(*ssa.Extract)
-					return ok && e.Tuple == ssa.Value(nx) && e.Index == 2
-				}
-				noRune = core.Not(core.BoolVal(func(v ssa.Value) bool {
-					e, ok := v.(*ssa.Extract)
-					return ok && e.Tuple == ssa.Value(nx) && e.Index == 0
-				}))
-			}
-			isFlush := core.Or(core.CallMethod("bytes.Buffer", "Reset"), core.CallMethod("strings.Builder", "Reset"))
-			isKeep := core.Or(core.CallMethod("bytes.Buffer", "WriteRune"), core.CallMethod("strings.Builder", "WriteRune"))
-			if len(core.Instrs(f, isKeep)) == 0 {
-				continue // iterates over runes but builds no words
+			l := c20FindSplitLoop(f, true)
+			if l == nil {
+				continue
 			}
 			n++
 			r.Fn(core.FuncName(f))
-			if len(core.Instrs(f, isFlush)) == 0 {
+			if len(core.Instrs(f, c20IsFlush)) == 0 {
 				o.Unres("%s: the word buffer is never reset in the function that collects the runes", core.FuncName(f))
 				continue
 			}
-			// paths on which no rune was read are not about a rune
-			errArm, _ := core.EdgesOf(f, noRune)
-			type want struct{ boundary, kept bool }
-			cases := map[rune]want{
-				'@': {false, true}, 'A': {true, true}, 'B': {true, true}, 'M': {true, true}, 'Y': {true, true}, 'Z': {true, true}, '[': {false, true},
-				'a': {false, true}, 'z': {false, true}, '0': {false, true}, '_': {true, false}, '-': {false, true},
-			}
-			for c, w := range cases {
-				cut := concreteCutX(f, isRune, int64(c))
-				both := func(e core.Edge) bool {
-					if cut(e) {
-						return true
-					}
-					for _, x := range errArm {
-						if x == e {
-							return true
-						}
-					}
-					return false
+			for _, c := range c20WordSamples {
+				boundary, kept := c == '_' || unicode.IsUpper(c), c != '_'
+				v := l.verdict(inMod, c)
+				if len(v.undecided) > 0 {
+					o.Unres("%s: a branch on the rune (%s) could not be evaluated for %q", core.FuncName(f), posOf(v.undecided[0]), c)
+					break
 				}
-				next := core.Is(rd) // the next iteration
 				// boundary: the buffer is flushed before the rune is kept / before the next read
-				_, skipsFlush := core.Reach(core.Q{From: []core.At{core.After(rd)}, Target: core.Or(isKeep, next), Blocked: isFlush, Cut: both})
-				_, canFlush := core.Reach(core.Q{From: []core.At{core.After(rd)}, Target: isFlush, Blocked: core.Or(isKeep, next), Cut: both})
-				if w.boundary && skipsFlush {
-					o.Fail(p.Pos(f.Pos()), "%s: rune %q does not always start a new word", core.FuncName(f), c)
+				if boundary && v.skipsFlush {
+					if c > unicode.MaxASCII {
+						o.Fail(p.Pos(f.Pos()), "%s: the upper-case letter %q does not start a new word although ASCII capitals do (an identifier like userÉcole is rendered as one word)", core.FuncName(f), c)
+					} else {
+						o.Fail(p.Pos(f.Pos()), "%s: rune %q does not always start a new word", core.FuncName(f), c)
+					}
 				}
-				if !w.boundary && canFlush {
+				if !boundary && v.canFlush {
 					o.Fail(p.Pos(f.Pos()), "%s: rune %q starts a new word", core.FuncName(f), c)
 				}
-				_, keeps := core.Reach(core.Q{From: []core.At{core.After(rd)}, Target: isKeep, Blocked: next, Cut: both})
-				_, drops := core.Reach(core.Q{From: []core.At{core.After(rd)}, Target: next, Blocked: isKeep, Cut: both})
-				if w.kept && drops {
+				if kept && v.drops {
 					o.Fail(p.Pos(f.Pos()), "%s: rune %q can be dropped from the word", core.FuncName(f), c)
 				}
-				if !w.kept && keeps {
+				if !kept && v.keeps {
 					o.Fail(p.Pos(f.Pos()), "%s: separator %q is kept in a word", core.FuncName(f), c)
 				}
 			}
